@@ -5,10 +5,14 @@ import (
 	"fmt"
 	"io"
 	"math/big"
+	"os"
 	"os/exec"
 	"strings"
 	"time"
 )
+
+// SlowMS > 0 logs queries slower than that many milliseconds to stderr.
+var SlowMS = 0
 
 type Result int
 
@@ -31,6 +35,7 @@ type Solver struct {
 	in        io.WriteCloser
 	out       *bufio.Reader
 	pr        *Printer
+	marks     [][2]int
 	Queries   int
 	Time      time.Duration
 	Errors    int
@@ -69,6 +74,7 @@ func (s *Solver) start() error {
 		return err
 	}
 	s.pr.Reset()
+	s.marks = nil
 	s.preamble()
 	return nil
 }
@@ -109,6 +115,26 @@ func (s *Solver) Reset() {
 	s.preamble()
 }
 
+// Push opens a scope: assertions, declarations and definitions made until the
+// matching Pop are forgotten.
+func (s *Solver) Push() {
+	s.marks = append(s.marks, s.pr.Mark())
+	s.send("(push 1)\n")
+}
+
+func (s *Solver) Pop() {
+	if len(s.marks) == 0 {
+		return
+	}
+	m := s.marks[len(s.marks)-1]
+	s.marks = s.marks[:len(s.marks)-1]
+	s.pr.Undo(m)
+	s.send("(pop 1)\n")
+}
+
+// Depth is the number of open scopes.
+func (s *Solver) Depth() int { return len(s.marks) }
+
 // Assert adds t permanently (until Reset).
 func (s *Solver) Assert(t *T) {
 	e := s.pr.Prepare(t)
@@ -146,7 +172,14 @@ func (s *Solver) sync() ([]string, error) {
 // non-empty and the result is sat, the values of those variables are returned.
 func (s *Solver) Check(extra []*T, want []*T) (Result, map[string]*big.Int, error) {
 	start := time.Now()
-	defer func() { s.Time += time.Since(start); s.Queries++ }()
+	defer func() {
+		d := time.Since(start)
+		s.Time += d
+		s.Queries++
+		if SlowMS > 0 && d > time.Duration(SlowMS)*time.Millisecond {
+			fmt.Fprintf(os.Stderr, "slow query %.1fs (#%d)\n", d.Seconds(), s.Queries)
+		}
+	}()
 	exprs := make([]string, len(extra))
 	for i, e := range extra {
 		exprs[i] = s.pr.Prepare(e)
